@@ -1399,6 +1399,91 @@ def r14(k: Kit) -> None:
     sftp_init_guarded(k, 'C14.R14')
 
 
+ERRNO_TABLE = {
+    'ENOENT': 'FX_NO_SUCH_FILE', 'EACCES': 'FX_PERMISSION_DENIED',
+    'EEXIST': 'FX_FILE_ALREADY_EXISTS', 'EROFS': 'FX_WRITE_PROTECT',
+    'ENOSPC': 'FX_NO_SPACE_ON_FILESYSTEM', 'EDQUOT': 'FX_QUOTA_EXCEEDED',
+    'ENOTEMPTY': 'FX_DIR_NOT_EMPTY', 'ENOTDIR': 'FX_NOT_A_DIRECTORY',
+    'ENAMETOOLONG': 'FX_INVALID_FILENAME', 'EILSEQ': 'FX_INVALID_FILENAME',
+    'ELOOP': 'FX_LINK_LOOP', 'EINVAL': 'FX_INVALID_PARAMETER',
+    'EISDIR': 'FX_FILE_IS_A_DIRECTORY',
+}
+
+
+def r15(k: Kit) -> None:
+    """Local OS errors map to the documented status codes."""
+    rep = k.rep
+    rep.rule('C14.R15', 'SFTPServerHandler (OSError branch of the request '
+             'dispatcher): the errno -> status code mapping, read off the '
+             'code in either of its forms (if / elif chain on exc.errno, or '
+             'a dict keyed by errno.X), agrees row by row with the '
+             'documented table (13 errno values); everything else is '
+             'FX_FAILURE')
+    got: Dict[str, str] = {}
+    where = None
+    for fi in k.idx.iter_funcs(['sftp']):
+        if not fi.qual.startswith('sftp.SFTPServerHandler.'):
+            continue
+        g = k.cfg(fi)
+        for a in g.nodes:
+            if a.kind != 'atom' or not isinstance(a.ast, ast.Compare) or \
+                    len(a.ast.ops) != 1 or \
+                    dotted(a.ast.left) not in ('exc.errno',):
+                continue
+            cmp = a.ast.comparators[0]
+            if isinstance(a.ast.ops[0], ast.Eq):
+                names = [dotted(cmp)]
+            elif isinstance(a.ast.ops[0], ast.In) and isinstance(
+                    cmp, (ast.Tuple, ast.Set, ast.List)):
+                names = [dotted(e) for e in cmp.elts]
+            else:
+                continue
+            names = [n[6:] for n in names if n and n.startswith('errno.')]
+            # the code assigned on the true edge before the chain rejoins
+            code = None
+            for b, lab in g.succ[a.id]:
+                if lab is not True:
+                    continue
+                cur, seen = b, set()
+                while cur is not None and cur not in seen:
+                    seen.add(cur)
+                    nd = g.nodes[cur]
+                    if isinstance(nd.ast, ast.Assign) and dotted(
+                            nd.ast.targets[0]) == 'code':
+                        code = dotted(nd.ast.value)
+                        break
+                    nxt = [x for x, l in g.succ[cur] if l != 'exc']
+                    cur = nxt[0] if len(nxt) == 1 else None
+            for nme in names:
+                got[nme] = code
+                where = where or fi
+    for mod_fi in [k.idx.module('sftp')]:
+        for x in ast.walk(mod_fi.tree):
+            if isinstance(x, ast.Dict) and x.keys and all(
+                    kx is not None and (dotted(kx) or '').startswith('errno.')
+                    for kx in x.keys):
+                for kx, vx in zip(x.keys, x.values):
+                    v0 = vx.elts[0] if isinstance(vx, ast.Tuple) and \
+                        vx.elts else vx
+                    got[dotted(kx)[6:]] = dotted(v0)
+    rep.floor('C14.R15', 'errno rows found in the code', len(got), 1)
+    bad = []
+    for e, want in sorted(ERRNO_TABLE.items()):
+        if got.get(e) != want:
+            bad.append(f'{e} -> {got.get(e, "FX_FAILURE (no row)")}, '
+                       f'documented {want}')
+    for e in sorted(set(got) - set(ERRNO_TABLE)):
+        bad.append(f'{e} -> {got[e]}: not a documented row')
+    rep.count('instances.errno_rows', len(got))
+    rep.check(not bad, 'C14.R15', 'sftp.SFTPServerHandler|errno table',
+              f'{len(ERRNO_TABLE)} rows agree',
+              '; '.join(bad) + ' - the client of a version 6 session is '
+              'told a generic failure (or the wrong condition) for a local '
+              'error that has its own status code',
+              where.loc(where.node) if where else
+              k.idx.module('sftp').relpath)
+
+
 def run(idx, rep, tier):
     k = Kit(idx, rep)
     rep.assumptions += NOT_DECIDED
@@ -1421,3 +1506,4 @@ def run(idx, rep, tier):
     r12(k)
     r13(k)
     r14(k)
+    r15(k)
